@@ -146,11 +146,19 @@ func genC08deep(c *lp.Ctx) {
 		for i := range base {
 			base[i] = fmt.Sprintf("k%07d", i)
 		}
-		pos := []int{n - 2, n / 2, 1023, 1024, 4095, 4096, c.Rng.Intn(n - 1)}
-		if n > 65537 {
-			pos = append(pos, 65534, 65535, 65536)
+		// keys[i], keys[i+1] is the violating pair.  i = m·2^k − 1 straddles a 2^k-aligned seam (a check cut into
+		// batches, blocks or SIMD lanes compares within a batch only); i = m·2^k − 2 and m·2^k lie beside it.
+		pos := []int{n - 2, n / 2, c.Rng.Intn(n - 1)}
+		for k := uint(9); k <= 17; k++ {
+			pos = append(pos, 1<<k-1)
+			if int(k)%2 == c.Rng.Intn(2) {
+				pos = append(pos, 3<<k-1, (1+c.Rng.Intn(7))<<k-1)
+			}
+			if !c.Quick() {
+				pos = append(pos, 1<<k-2, 1<<k, 5<<k-1)
+			}
 		}
-		for _, i := range pos[:c.Pick(4, len(pos))] {
+		for _, i := range pos {
 			if i < 0 || i+1 >= n {
 				continue
 			}
